@@ -51,3 +51,10 @@ def run(ctx):
     from ..engines import labelkind as LKK
     LKK.k5_cache_invalidation(ctx)
     ctx.floor("K5", 6)
+    # a rule asks its strategy the same question it is asked (round 10)
+    from ..engines import dispatch as DP5
+    DP5.d5_rule_delegates_to_the_same_question(ctx)
+    ctx.floor("D5", 4)
+    QK22 = __import__("vstatic.engines.equivrules", fromlist=["x"])
+    QK22.k22_parent_pointers_are_not_representatives(ctx)
+    ctx.floor("K22", 1)
